@@ -3,6 +3,38 @@ import os
 import vlib
 
 
+FIXTURES = ["examples/food.yaml", "examples/log.yaml", "cmd/hranoprovod-cli/internal/testutils/testAssets/food.yaml",
+            "cmd/hranoprovod-cli/internal/testutils/testAssets/log.yaml", "cmd/hranoprovod-cli/internal/testutils/testAssets/print-log.yaml",
+            "README.md", "docs/usage.md", "docs/index.md", "documentation/usage.md"]
+
+
+def fixture_lines():
+    """The distinct ASCII lines of the repository's example files as a TLA+ set of character sequences (a generated
+    module: INIT line \\in FixtureLines, no step).  '"' is written "q" as everywhere in Lexer.tla, so the letter q
+    itself and the exponent letters are replaced by another ordinary letter first (the replaced line is what both TLC and the
+    parser see)."""
+    seen = []
+    for f in FIXTURES:
+        p = os.path.join(vlib.REPO, f)
+        if not os.path.exists(p):
+            continue
+        for ln in open(p, encoding="utf-8", errors="replace").read().split("\n"):
+            ln = ln.rstrip("\r")
+            if not ln or len(ln) > 90 or any(ord(c) > 126 or (ord(c) < 32 and c != "\t") for c in ln) or "\\" in ln:
+                continue
+            ln = ln.replace("q", "k").replace("e", "a").replace("E", "A")
+            if ln not in seen:
+                seen.append(ln)
+    seen = seen[:400]
+
+    def tup(ln):
+        return "<<" + ", ".join('"%s"' % ("q" if c == '"' else "\\t" if c == "\t" else c) for c in ln) + ">>"
+    mod = "---- MODULE MC_LexerFix ----\nEXTENDS Lexer\nFixtureLines == {\n  " + ",\n  ".join(tup(l) for l in seen) + "\n}\nFixInit == line \\in FixtureLines\n====\n"
+    cfg = ("CONSTANTS\n  Alphabet = {}\n  MaxLen = 0\n  Dump = TRUE\nINIT FixInit\nNEXT Next\n"
+           "INVARIANTS GrammarSound NotesNeverEntries MalformedExactly OrphanSilent NameShape PrintFormReadsBack NoteFixpoint DumpInv\nCHECK_DEADLOCK FALSE\n")
+    return mod, cfg, len(seen)
+
+
 def run(ctx):
     ctx.build_harness()
     q = ctx.tier == "quick"
@@ -13,6 +45,16 @@ def run(ctx):
     if not q:
         ctx.tlc_must_pass("MC_Lexer.tla", "MC_Lexer_thorough7.cfg", workers=14, heap="4g", timeout=1800)
         ctx.tlc_must_pass("MC_Lexer.tla", "MC_Lexer_thorough6d.cfg", dump_path=table, workers=14, heap="4g", timeout=1800)
+    # long lines: random walks of the same state machine (TLC -simulate), every prefix classified by Lex and replayed
+    ctx.tlc("MC_Lexer.tla", "MC_Lexer_sim.cfg", dump_path=table, workers=1, simulate="num=%d" % (300 if q else 3000), depth=33,
+            extra=["-seed", str(ctx.seed)], timeout=1800, label="simulation: random lines of up to 32 characters")
+    if not ctx.tlc_runs[-1]["ok"]:
+        raise vlib.Infra("TLC simulation of MC_Lexer_sim.cfg failed")
+    # the lines of the repository's own example / fixture files and documentation, classified by Lex and replayed
+    fx = fixture_lines()
+    ctx.tlc_must_pass("MC_LexerFix.tla", "MC_LexerFix.cfg", dump_path=table, workers=4, timeout=900,
+                      cwd_files={"MC_LexerFix.tla": fx[0], "MC_LexerFix.cfg": fx[1]}, label="Lex on the %d distinct lines of the repository's example files" % fx[2])
+    ctx.cov["fixture_lines_classified"] = fx[2]
     mm = os.path.join(ctx.scratch, "lexer_mm.ndjson")
     res = ctx.drv("lexer-replay", infile=table, outfile=mm)
     ctx.add("evaluations", res["runs"])
@@ -45,7 +87,7 @@ def run(ctx):
         rule="(1) every line of <= 5 characters over an 11-symbol alphabet (and <= 6..8 over 9 symbols for the theorems): TLC checks the "
              "tokenizer transcription against the documented format (GrammarSound, NotesNeverEntries, ...) and prints the table "
              "line -> classification, which is compared with the real parser in 5 contexts (LF/CRLF, with/without final line break, "
-             "before any heading); (2) every well-formed file of <= 5 abstract lines over 9 line kinds: TLC checks RecordsExact / "
+             "before any heading); the same for random walks of the line-building state machine to 32 characters over 13 symbols (TLC -simulate) and for the distinct lines of the repository's own example files and documentation; (2) every well-formed file of <= 5 abstract lines over 9 line kinds: TLC checks RecordsExact / "
              "LastRecordKept and each file is rendered in random layout variants and parsed by the real code; (3) long random files, "
              "callback traces validated against Trace_Parser.tla.  Non-trivial = the line is not skipped / the file has an entry",
         exhaustive=True,
